@@ -232,7 +232,7 @@ def write_replay(prop_id, v):
     os.makedirs(d, exist_ok=True)
     name = '%012x.json' % (h64([v['clause'], v['key'], v['case']]) >> 16)
     path = os.path.join(d, name)
-    with open(path, 'w') as f:
+    with open(path, 'w', encoding='utf-8', errors='backslashreplace') as f:     # (a lone surrogate becomes its JSON escape)
         json.dump({'property': prop_id, **v}, f, indent=1, ensure_ascii=False, default=repr)
     return os.path.relpath(path, HOME)
 
@@ -270,7 +270,7 @@ def write_evidence(prop, tier, seed, merged, fin, wall_s, n_violations):
     os.makedirs(d, exist_ok=True)
     path = os.path.join(d, prop.ID + '.json')
     tmp = path + '.tmp'
-    with open(tmp, 'w') as f:
+    with open(tmp, 'w', encoding='utf-8', errors='backslashreplace') as f:
         json.dump(ev, f, indent=1, ensure_ascii=False, default=repr)
     os.replace(tmp, path)
     return path
